@@ -25,7 +25,12 @@ COQ_REQUIRE = ["M_Orch"]
 COQ_CASE_TYPE = "M_Orch.case"
 COQ_CHECK = "M_Orch.check_case"
 OBLIGATIONS = ["orch_finishes_iff_all_ended", "orch_reports_last_values",
-               "orch_cost_accounts_assignment"]
+               "orch_cost_accounts_assignment",
+               "orch_cost_none_iff_incomplete", "orch_cost_none_unguarded_refuted",
+               "orch_deploy_each_once", "orch_run_each_once", "dpop_events_ordered",
+               "dpop_all_finished_complete", "orch_solution_cost_is_dcop_cost",
+               "orch_cost_plus_violations", "orch_thread_mode_transport", "orch_dpop_stop_sound",
+               "orch_dpop_stop_happens", "orch_dpop_result_optimal", "orch_dpop_stop_result"]
 N_QUICK, N_THOROUGH = 160, 1600
 N_SEARCH = 320   # size of the extra oracle search after a broken obligation/correspondence (real threaded runs are slow)
 PARALLEL = 8
@@ -138,10 +143,36 @@ def _gen_crafted(rng):
                 script=script)
 
 
+def _gen_composed(rng):
+    """a C01 case (dcop + seed of a netdriver schedule) turned into a composed run: real DpopAlgo
+    computations hosted by real (unstarted) OrchestratedAgents, a real Orchestrator's queue"""
+    from harness.props import C01 as c01
+    dp = c01.gen(rng, 1, "quick")[0]
+    n = len(dp["doms"])
+    dp["offs"] = [0] * n                      # value = domain index (M_Orch's values are indices)
+    for cc in dp["cons"]:                     # keep the generated tables, as matrix constraints
+        cc["kind"] = "matrix"
+        cc.pop("expr", None)
+        if rng.random() < 0.1:                # some infinite costs
+            t = cc["table"]
+            while isinstance(t[0], list):
+                t = rng.choice(t)
+            t[rng.randrange(len(t))] = rt.INFINITY
+    n_agents = rng.randint(1, 4)
+    host = [rng.randrange(n_agents) for _ in range(n)]
+    return dict(kind="composed", dpop=dp, n_agents=n_agents, host=host,
+                drain=rng.choice([0.0, 0.3, 1.0]), seed=rng.randrange(1 << 30))
+
+
 def gen(rng, n, tier):
     cases = []
     for i in range(n):
-        cases.append(_gen_real(rng) if i % 4 == 0 else _gen_crafted(rng))
+        if i % 4 == 0:
+            cases.append(_gen_real(rng))
+        elif i % 4 == 2:
+            cases.append(_gen_composed(rng))
+        else:
+            cases.append(_gen_crafted(rng))
     return cases
 
 
@@ -263,7 +294,163 @@ def _crafted(case):
     return res
 
 
+def _composed(case):
+    """Thread-free composition of the REAL layers: DpopAlgo computations driven by the netdriver
+    under a seeded schedule; each is hosted (Agent.add_computation: the notify_wrap of
+    _on_value_selection / finished) by a real, never started OrchestratedAgent whose
+    OrchestrationComputation posts the management messages through the agent's real Messaging and
+    the in-process communication layer into the queue of a real, never started Orchestrator; the
+    harness pops that queue and hands the messages to AgentsMgt.on_message (what Agent._run does)."""
+    rt.quiet()
+    import numpy
+    from importlib import import_module
+    from harness.props import C01 as c01
+    from harness.pydrv.netdriver import NetDriver, pick_policy
+    from pydcop.algorithms import load_algorithm_module, AlgorithmDef, ComputationDef
+    from pydcop.dcop.objects import AgentDef
+    from pydcop.distribution.objects import Distribution
+    from pydcop.infrastructure.communication import InProcessCommunicationLayer
+    from pydcop.infrastructure.computations import Message
+    from pydcop.infrastructure.orchestratedagents import OrchestratedAgent, ORCHESTRATOR_MGT, ORCHESTRATOR
+    from pydcop.infrastructure import orchestrator as om
+    c = case["dpop"]
+    rng = random.Random(case["seed"])
+    random.seed(case["seed"])
+    numpy.random.seed(case["seed"] % (2 ** 32))
+    dcop, vs = c01.build_dcop(c)
+    mod = load_algorithm_module("dpop")
+    gm = import_module("pydcop.computations_graph." + mod.GRAPH_TYPE)
+    cg = gm.build_computation_graph(dcop)
+    adef = AlgorithmDef.build_with_default_param("dpop", {}, mode=dcop.objective,
+                                                 parameters_definitions=mod.algo_params)
+    agents = [rt.aname(i) for i in range(case["n_agents"])]
+    mapping = {a: [] for a in agents}
+    for node in cg.nodes:
+        mapping[agents[case["host"][int(node.name[1:])]]].append(node.name)
+    dist = Distribution(mapping)
+    dcop.add_agents([AgentDef(a) for a in agents])
+    tr = rt.MgtTrace().install()
+    static = _static(dcop, cg, dist, None)
+    orch = om.Orchestrator(adef, cg, dist, InProcessCommunicationLayer(), dcop, rt.INFINITY)
+    orch.repair_only = False
+    mgt = orch.mgt
+    mgt.message_sender = lambda *a, **k: None     # orders to the agents are recorded by MgtTrace only
+    mgt.on_start()
+    disc = orch.discovery
+    disc.register_computation(ORCHESTRATOR_MGT, ORCHESTRATOR, publish=False)   # Orchestrator.start()
+    ags = {a: OrchestratedAgent(AgentDef(a), InProcessCommunicationLayer(), orch.address) for a in agents}
+    comps, tree = {}, {}
+    for node in cg.nodes:
+        p, pps, ch, pcs = gm.get_dfs_relations(node)
+        tree[node.name] = [p, list(ch), list(pps), list(pcs), [r.name for r in node.constraints]]
+        comps[node.name] = mod.build_computation(ComputationDef(node, adef))
+    cons_dims = {r.name: [v.name for v in r.dimensions] for r in dcop.constraints.values()}
+    # ---- orchestrator side: registration, deploy, run (as a clean start-up does)
+    for a in agents:
+        disc.register_agent(a, ags[a].address, publish=False)
+    mgt.on_message("_mgt_orchestrator", Message("_orchestrator_deploy_computations", None), 0)
+    for a in agents:
+        ags[a].add_computation(ags[a]._mgt_computation, publish=False)        # OrchestratedAgent._on_start
+        for n_ in mapping[a]:
+            ags[a].add_computation(comps[n_], publish=False)                 # _on_deploy_computations
+            disc.register_computation(n_, a, publish=False)
+    mgt.on_message("_mgt_orchestrator", Message("_orchestrator_run_computations", None), 0)
+    # ---- the computations, under the netdriver
+    log, posted = [], []
+    byname = {v.name: v for v in vs}
+
+    def idx(name, val):
+        return list(byname[name].domain).index(val)
+
+    def relobs(r):
+        return [[v.name for v in r.dimensions], c01._tolist(r._m)]
+
+    def msgobs(msg):
+        if msg.type == "UTIL":
+            return ["util"] + relobs(msg.content)
+        vars_, vals = msg.content
+        return ["value", [v.name for v in vars_], [idx(v.name, w) for v, w in zip(vars_, vals)]]
+
+    drv = NetDriver.__new__(NetDriver)
+    drv.comps, drv.names, drv.chans = dict(comps), sorted(comps), {}
+    drv.started, drv.paused, drv.events, drv.schedule, drv._reinj, drv.t = set(), set(), [], [], None, 0
+    orig = drv._sender
+
+    def sender(src, dst, msg, prio=None, on_error=None):
+        if prio != 19:
+            log.append(["send", src, dst] + msgobs(msg))
+        orig(src, dst, msg, prio, on_error)
+
+    def wrap_sel(name, inner):
+        def f(v, cost, cyc):
+            log.append(["select", name, idx(name, v), c01._int(cost)])
+            inner(v, cost, cyc)
+        return f
+
+    def wrap_fin(name, inner):
+        def f():
+            log.append(["fin", name])
+            inner()
+        return f
+    for name, comp in comps.items():
+        comp._msg_sender = sender            # algorithm messages: netdriver channels
+        comp._on_value_selection = wrap_sel(name, comp._on_value_selection)
+        comp.finished = wrap_fin(name, comp.finished)
+    queue = orch._own_agt._messaging
+
+    def drain():
+        while True:
+            full, t = queue.next_msg(0)
+            if full is None:
+                return
+            posted.append(rt.canon_msg(full.msg))
+            mgt.on_message(full.src_comp, full.msg, t)
+    real_do = drv.do
+
+    def do(act):
+        ne = len(drv.events)
+        real_do(act)
+        for e in drv.events[ne:]:
+            if e[0] == "raise":
+                kind = {"ValueError": 1, "IndexError": 2, "AttributeError": 3, "KeyError": 4}.get(e[2], 0)
+                log.append(["raise", e[1], kind, e[2] + ": " + e[3]])
+        if rng.random() < case["drain"]:
+            drain()
+    drv.do = do
+    steps = c["steps"]
+    drv.run_random(rng, max_steps=2000 if steps is None else steps, policy=pick_policy(rng, list(comps)))
+    drain()
+    complete = not drv.enabled()
+    final, joined = {}, {}
+    for name, comp in comps.items():
+        cv = comp.current_value
+        final[name] = [None if cv is None else idx(name, cv),
+                       None if cv is None else c01._int(comp.current_cost),
+                       not comp.is_running and name in drv.started and cv is not None,
+                       list(comp._waited_children)]
+        joined[name] = relobs(comp._joined_utils)
+    inflight = []
+    for (s_, d_), ql in sorted(drv.chans.items()):
+        if d_ in comps:
+            inflight.append([s_, d_, [msgobs(m_) for m_ in ql]])
+    res = dict(status=orch.status, elapsed=0.0, trace=tr.entries, foreign=tr.foreign, posted=posted,
+               dp=dict(tree=tree, cons_dims=cons_dims, log=log, sched=drv.schedule, final=final,
+                       joined=joined, inflight=inflight, complete=complete),
+               failed=len(queue._failed) if hasattr(queue, "_failed") else 0)
+    res.update(_final(orch))
+    res["static"] = static
+    return res
+
+
 def run_impl(case):
+    if case["kind"] == "composed":
+        from pydcop.infrastructure import orchestrator as om
+        M = om.AgentsMgt
+        saved = (M.on_message, M._send_mgt_msg, M._cb_agent_registration, M._cb_computation_registration)
+        try:
+            return _composed(case)
+        finally:
+            M.on_message, M._send_mgt_msg, M._cb_agent_registration, M._cb_computation_registration = saved
     if case["kind"] == "real":
         return rt.run_isolated(_real, case, hard_timeout=RUN_TIMEOUT + 60)
     # crafted cases are thread-free; still isolated from each other by being cheap and stateless
@@ -279,6 +466,42 @@ def run_impl(case):
 # ------------------------------------------------------------------ oracle (independent)
 def _events(o):
     return [(e["ev"], e["outs"]) for e in o["trace"]]
+
+
+def _link_assumptions(o, nodes, evs):
+    dist = o["static"]["dist"]
+    host = {}
+    for a, cs in dist:
+        for c in cs:
+            if c in host:
+                return "distribution hosts %s on %s and %s" % (c, host[c], a)
+            host[c] = a
+    if set(host) != nodes:
+        return "distribution hosts %r, graph computations are %r" % (sorted(host), sorted(nodes))
+    deployed, ran = {}, {}
+    for ev, outs in evs:
+        for x in outs:
+            if x[0] == "deploy":
+                deployed.setdefault(x[2], []).append(x[1])
+            elif x[0] == "run":
+                for c in x[2]:
+                    ran.setdefault(c, []).append(x[1])
+    for c in sorted(nodes):
+        if deployed.get(c) != [host[c]]:
+            return "computation %s deployed through %r, its host is %s" % (c, deployed.get(c), host[c])
+        if ran.get(c) != [host[c]]:
+            return "computation %s run through %r, its host is %s" % (c, ran.get(c), host[c])
+    per = {}
+    for ev, _ in evs:
+        if ev["t"] in ("value", "end"):
+            per.setdefault(ev["comp"], []).append((ev["t"], ev["agent"]))
+    if set(per) - nodes:
+        return "value/end messages about %r, not graph computations" % sorted(set(per) - nodes)
+    for c in sorted(nodes):
+        if per.get(c) != [("value", host[c]), ("end", host[c])]:
+            return ("management messages about %s: %r, expected one value_change then one "
+                    "end_of_computation from %s" % (c, per.get(c), host[c]))
+    return None
 
 
 def oracle(case, o):
@@ -324,6 +547,14 @@ def oracle(case, o):
         if rt.total_cost(spec, vals) != best:
             return "reported assignment costs %d, optimum (%s) is %d" % (
                 rt.total_cost(spec, vals), spec["objective"], best)
+        # ---- the hypotheses of the composed theorems (Prop_C22: dist_hosts_once, transport /
+        # delivered, the link) hold on this run: the distribution hosts every computation once
+        # and deploy / run orders reach it through its host only; per computation AgentsMgt
+        # handled exactly one value_change then one end_of_computation, both from the host,
+        # and no value / end message names anything else
+        msg = _link_assumptions(o, nodes, evs)
+        if msg:
+            return msg
     # ---- value collection: last value of each computation
     last = {}
     for ev, _ in evs:
